@@ -257,11 +257,11 @@ func (r *Reader) initFields() error {
 			r.m[ent.Name] = ent
 		}
 		if ent.Type == "reg" && ent.ChunkSize > 0 && ent.ChunkSize < ent.Size {
-			nChunks := ent.Size/ent.ChunkSize + 1
-			if nChunks > int64(len(r.toc.Entries)) {
-				nChunks = int64(len(r.toc.Entries)) // a file cannot have more chunks than the TOC has entries
+			nChunks := ent.Size / ent.ChunkSize // no "+ 1" here: Size can be the largest int64
+			if nChunks >= int64(len(r.toc.Entries)) {
+				nChunks = int64(len(r.toc.Entries)) - 1 // a file cannot have more chunks than the TOC has entries
 			}
-			r.chunks[ent.Name] = make([]*TOCEntry, 0, nChunks)
+			r.chunks[ent.Name] = make([]*TOCEntry, 0, nChunks+1)
 			r.chunks[ent.Name] = append(r.chunks[ent.Name], ent)
 		}
 		if ent.ChunkSize == 0 && ent.Size != 0 {
